@@ -3,7 +3,7 @@
    imply constructed; the hygiene flag printed after each operation is 0 unless the model reached one of its Abort
    outcomes at that step; "destroy all" reports a balanced ledger. *)
 From Coq Require Import ZArith NArith List Bool Lia.
-From DS Require Import RunnerLib LedgerCore LedgerCoreProofs LedgerKll LedgerKllProofs LedgerTup LedgerTupProofs LedgerFi LedgerFiProofs LedgerReq LedgerReqProofs LedgerVo LedgerVoProofs LedgerDefs LedgerProofs.
+From DS Require Import RunnerLib LedgerCore LedgerCoreProofs LedgerKll LedgerKllProofs LedgerTup LedgerTupProofs LedgerFi LedgerFiProofs LedgerReq LedgerReqProofs LedgerVo LedgerVoProofs LedgerHll LedgerHllProofs LedgerDefs LedgerProofs.
 Import ListNotations.
 Local Open Scope Z_scope.
 
@@ -116,11 +116,22 @@ Section Ops.
   Lemma op_new_ok rs' out : op_new rs a1 a2 a3 a4 e = (rs', out) -> RInv rs' /\ flag_of out = 0.
   Proof.
     unfold op_new. destruct (reg_get rs a1); [fin|].
-    destruct (a2 =? 3).
+    destruct (a2 =? 3); [|destruct (a2 =? 7); [|destruct (a2 =? 15)]].
     - destruct (obj_new_req a3 a4 e) as [[ob bad]|] eqn:E1; [|fin].
       destruct (obj_new_req_ok a3 a4 e ob bad E1) as [Ho ->]. fin. split; auto. apply RInv_set; auto.
+    - destruct (obj_new_hll false a3 a4 e) as [[ob bad]|] eqn:E1; [|fin].
+      destruct (obj_new_hll_ok false a3 a4 e ob bad E1) as [Ho ->]. fin. split; auto. apply RInv_set; auto.
+    - destruct (obj_new_hll true a3 0 e) as [[ob bad]|] eqn:E1; [|fin].
+      destruct (obj_new_hll_ok true a3 0 e ob bad E1) as [Ho ->]. fin. split; auto. apply RInv_set; auto.
     - destruct (obj_new a2 a3 a4) as [[ob bad]|] eqn:E1; [|fin].
       destruct (obj_new_ok a2 a3 a4 ob bad E1) as [Ho ->]. fin. split; auto. apply RInv_set; auto.
+  Qed.
+
+  Lemma op_result_ok rs' out : op_result rs a1 a2 a3 a4 e = (rs', out) -> RInv rs' /\ flag_of out = 0.
+  Proof.
+    unfold op_result. destruct (reg_get rs a1); [fin|]. destruct (reg_get rs a2) as [ou|] eqn:Hg; [|fin].
+    destruct (obj_result ou e) as [[ob bad]|] eqn:E1; [|fin].
+    destruct (obj_result_ok ou e ob bad (RInv_get _ _ _ HR Hg) E1) as [Ho ->]. fin. split; auto. apply RInv_set; auto.
   Qed.
 
   Lemma op_update_ok rs' out : op_update rs a1 a2 a3 a4 e = (rs', out) ->
@@ -184,8 +195,8 @@ Section Ops.
   Proof.
     unfold op_merge. destruct (reg_get rs a1) as [orr|] eqn:Hg1; [|fin]. destruct (reg_get rs a2) as [os|] eqn:Hg2; [|fin].
     destruct (Z.eqb_spec a1 a2); [fin|].
-    destruct (obj_merge orr os) as [u|] eqn:E1; [|fin].
-    pose proof (obj_merge_ok orr os u (RInv_get _ _ _ HR Hg1) (RInv_get _ _ _ HR Hg2) E1) as H.
+    destruct (obj_merge orr os e) as [u|] eqn:E1; [|fin].
+    pose proof (obj_merge_ok orr os e u (RInv_get _ _ _ HR Hg1) (RInv_get _ _ _ HR Hg2) E1) as H.
     destruct u as [o' bad|o' bad].
     - destruct H as [Ho ->]. fin. split; auto. apply RInv_set; auto.
     - destruct H as [Ho [->|Ha]]; fin; (split; [apply RInv_set; auto|]); auto.
@@ -197,8 +208,8 @@ Section Ops.
     unfold op_merge_move. destruct (reg_get rs a1) as [orr|] eqn:Hg1; [|fin]. destruct (reg_get rs a2) as [os|] eqn:Hg2; [|fin].
     destruct (Z.eqb_spec a1 a2) as [|Hne]; [fin|].
     destruct (follow_ok rs a2 a3 a4) eqn:Hf; [|fin].
-    destruct (obj_merge orr os) as [u|] eqn:E1; [|fin].
-    pose proof (obj_merge_ok orr os u (RInv_get _ _ _ HR Hg1) (RInv_get _ _ _ HR Hg2) E1) as H.
+    destruct (obj_merge orr os e) as [u|] eqn:E1; [|fin].
+    pose proof (obj_merge_ok orr os e u (RInv_get _ _ _ HR Hg1) (RInv_get _ _ _ HR Hg2) E1) as H.
     destruct u as [o' bad|o' bad].
     - destruct H as [Ho ->].
       set (rs1 := reg_set rs a1 o').
@@ -217,8 +228,8 @@ Section Ops.
   Lemma op_reset_ok rs' out : op_reset rs a1 a2 a3 a4 e = (rs', out) -> RInv rs' /\ flag_of out = 0.
   Proof.
     unfold op_reset. destruct (reg_get rs a1) as [ob|] eqn:Hg; [|fin].
-    destruct (obj_reset ob) as [[o' bad]|] eqn:E1; [|fin].
-    destruct (obj_reset_ok ob o' bad (RInv_get _ _ _ HR Hg) E1) as [Ho ->]. fin. split; auto. apply RInv_set; auto.
+    destruct (obj_reset ob e) as [[o' bad]|] eqn:E1; [|fin].
+    destruct (obj_reset_ok ob e o' bad (RInv_get _ _ _ HR Hg) E1) as [Ho ->]. fin. split; auto. apply RInv_set; auto.
   Qed.
 
   Lemma op_trim_ok rs' out : op_trim rs a1 a2 a3 a4 e = (rs', out) -> RInv rs' /\ flag_of out = 0.
@@ -291,6 +302,7 @@ Proof.
   destruct (Z.eqb_spec (arg o 0) 11). { intros E. destruct (op_query_copy_ok rs HR _ _ _ _ e rs' out E). auto. }
   destruct (Z.eqb_spec (arg o 0) 12). { intros E. destruct (op_trim_ok rs HR _ _ _ _ e rs' out E). auto. }
   destruct (Z.eqb_spec (arg o 0) 13). { intros E. destruct (op_chain_ok rs HR _ _ _ _ e rs' out E). auto. }
+  destruct (Z.eqb_spec (arg o 0) 18). { intros E. destruct (op_result_ok rs HR _ _ _ _ e rs' out E). auto. }
   destruct (Z.eqb_spec (arg o 0) 99).
   { intros E. destruct (op_destroy_all_ok rs _ _ _ _ e rs' out HR E) as [H1 ->]. auto. }
   intros E; injection E as <- <-. auto.
